@@ -11,11 +11,13 @@ import sys
 import time
 
 ROOT = "/verif"
-REPO = "/repo"
-BUILD = os.path.join(ROOT, "build")
+# VERIF_REPO / VERIF_BUILD: private source tree and build/evidence area, used ONLY for
+# mutation experiments (a scratch worktree of /repo); registered checks never set them.
+REPO = os.environ.get("VERIF_REPO", "/repo")
+BUILD = os.environ.get("VERIF_BUILD", os.path.join(ROOT, "build"))
 TLA = os.path.join(ROOT, "tla")
 HARNESS = os.path.join(ROOT, "harness")
-EVID = os.path.join(ROOT, "evidence")
+EVID = os.path.join(ROOT, "evidence") if "VERIF_BUILD" not in os.environ else os.path.join(BUILD, "evidence")
 TLAJAR = "/opt/veriftools/tla/tla2tools.jar"
 TLACP = TLAJAR + ":/opt/veriftools/tla/CommunityModules-deps.jar"
 GUARD = "RELIC_VERIF"
